@@ -57,7 +57,7 @@ L_WAIT = {"myth_init_once_ctl_wait": [dict(loop_id="0", assigns="g_myth_init_sta
     invariants="var == &g_myth_init_state && g_myth_init_state == g_W && g_i_init == 0 && " + W_INV,
     symbol_map="var,myth_init_once_ctl_wait::var")]}
 FLAGS = "g_did_cpus == 1 && g_did_flmalloc == 1 && g_did_tls == 1 && g_did_barrier == 1 && g_did_envs == 1 && g_did_key == 1"
-L_REALLY = {"myth_init_ex_body_really": [dict(loop_id="0", assigns="i, g_created, POOL",
+L_REALLY = {"myth_init_ex_body_really": [dict(loop_id="0", assigns="i, g_created",
     invariants="1 <= i && i <= nw && nw == g_nw && g_created == i - 1 && g_envs == g_pool && g_envs_sz == g_nw && g_main_started == 0 && " + FLAGS,
     decreases="nw - i",
     symbol_map="i,myth_init_ex_body_really::1::i;nw,myth_init_ex_body_really::1::nw")]}
@@ -134,17 +134,20 @@ JOBS = [
                "myth_internal_barrier_init/barrier_init_contract", "myth_malloc/malloc_contract",
                "myth_worker_key_init/worker_key_init_contract", "real_pthread_create/pthread_create_contract",
                "real_pthread_self/pthread_self_contract", "myth_worker_thread_fn/worker_thread_fn_contract"],
-      fuc=["myth_init_ex_body_really"], timeout=200),
+      defines=["-DPOOL_MALLOC=1", "-DNW_MAX=1048576"], fuc=["myth_init_ex_body_really"], timeout=200),
   Job("c15.fini.body", TU3, "h_fini", loops=L_FINI, loop_counts={"myth_init_once_ctl_wait": 1, "myth_fini_body": 2},
       replace=ENV3 + ["myth_startpoint_exit_ex_body/exit_ex_contract", "real_pthread_join/pthread_join_contract",
                       "myth_fini_body_really/fini_really_contract"],
       fuc=["myth_fini_body", "myth_init_once_ctl_wait", "myth_get_current_env"], timeout=200),
-  Job("c15.fini.exit", TU3, "h_exit_ex", loops=L_EXIT,
-      loop_counts={"myth_startpoint_exit_ex_body": 1, "myth_startpoint_exit_ex_1": 1, "myth_notify_workers_exit": 1},
+  Job("c15.fini.exit.bounded", TU3, "h_exit_ex", kind="bounded",
       replace=["verif_ctx_save/ctx_save_contract", "verif_suspend_resume/suspend_resume_contract", "myth_queue_trypass/trypass_contract",
                "myth_random/random_contract", "myth_cleanup_worker/cleanup_worker_contract"],
+      cbmc=["--unwind", "4", "--unwindset", "myth_notify_workers_exit.0:65", "--unwindset", "setup_migration.0:65", "--unwinding-assertions"],
+      defines=["-DMAX_REFUSALS=2", "-DNW_MAX=64"],
       fuc=["myth_startpoint_exit_ex_body", "myth_startpoint_exit_ex_1", "myth_notify_workers_exit", "myth_env_get_randomly",
-           "myth_get_current_env"], timeout=200),
+           "myth_get_current_env"], timeout=200,
+      note="bounded: at most 2 refused hand-overs of the main thread (so at most 3 migration hops), at most 64 workers (static descriptor pool); "
+           "loop contracts would havoc descriptor pointers that are dereferenced afterwards, which CBMC's symbolic execution does not survive"),
   Job("c15.worker_num", TU3, "h_worker_num", replace=ENV3 + ["myth_init_ex_body_really/really_contract"],
       loops=L_WAIT, loop_counts={"myth_init_once_ctl_wait": 1},
       fuc=["myth_get_worker_num_body", "myth_get_num_workers_body", "myth_get_current_env", "myth_ensure_init"], timeout=200),
